@@ -11,6 +11,7 @@ HERE = os.path.dirname(os.path.dirname(os.path.abspath(__file__)))
 REPO = os.environ.get('GECS_REPO', '/repo')
 
 ST = 'src/archetype/storage.rs'
+GW = 'macros/src/generate/world.rs'
 MUTANTS = [
     # name, file, old, new, properties expected to report a violation
     ('resolve_drop_is_free', ST, '(slot.version() != entity.version()) || slot.is_free()', '(slot.version() != entity.version())', ['C03', 'C01']),
@@ -124,6 +125,37 @@ MUTANTS = [
         if entity.archetype_id() != A::ARCHETYPE_ID {""", """    pub fn from_any(entity: EntityAny) -> Self {
         if entity.archetype_id() != A::ARCHETYPE_ID || entity.archetype_id() == 255 {""", ['C14']),
     ('panic_in_critical_section', ST, 'self.version = next_version;', 'self.version = self.version.next();', ['C10']),
+    # ---- the generator of the archetype / world layer (R-quote, world unit)
+    ('gen_any_resolve_unchecked', GW, 'self.data.resolve(Entity::<Self>::try_from(entity).ok()?)', 'self.data.resolve(Entity::<Self>::from_any_unchecked(entity))', ['C03']),
+    ('gen_world_with_capacity_ignored', GW, 'quote!(with_capacity(capacity.#archetype))', 'quote!(new())', ['C12']),
+    ('gen_world_clear_events_skipped', GW, '#(self.#archetype.clear_events();)*', '', ['C17']),
+    ('gen_select_archetype_id_zero', GW, 'SelectArchetype::#Archetype => #Archetype::ARCHETYPE_ID,', 'SelectArchetype::#Archetype => 0,', ['C14']),
+    ('gen_any_destroy_reports_none', GW, '''Ok(SelectEntity::#Archetype(entity)) =>
+                                self.#archetype.destroy(entity).map(|_| ()),''', '''Ok(SelectEntity::#Archetype(entity)) =>
+                                { self.#archetype.destroy(entity); None },''', ['C01']),
+    ('gen_direct_any_never_resolves', GW, 'self.data.resolve(EntityDirect::<Self>::try_from(entity).ok()?)', 'None', ['C09']),
+    ('gen_create_wc_reallocates', GW, 'self.data.push_within_capacity(components.into())', 'Ok(self.data.push(components.into()))', ['C12']),
+    ('gen_clone_loses_entities', GW, 'data: self.data.clone(),', 'data: #StorageN::with_capacity(self.data.capacity()),', ['C13']),
+    ('gen_components_from_clones', GW, '#component: components.#component_index,', '#component: components.#component_index.clone(),', ['C02']),
+    ('gen_world_typed_contains_true', GW, '''entity: Entity<#Archetype>,
+                    ) -> bool {
+                        self.archetype::<#Archetype>().contains(entity)''', '''entity: Entity<#Archetype>,
+                    ) -> bool {
+                        true''', ['C01']),
+    ('gen_any_to_direct_none', GW, '''Ok(SelectEntity::#Archetype(entity)) =>
+                                self.#archetype.to_direct(entity).map(|e| e.into()),''', '''Ok(SelectEntity::#Archetype(entity)) =>
+                                None,''', ['C09']),
+    ('gen_select_try_from_wrong_variant_check', GW, '''                fn try_from(entity: EntityAny) -> Result<Self, EcsError> {
+                    match entity.archetype_id() {
+                        #(
+                            #Archetype::ARCHETYPE_ID => Ok(SelectArchetype::#Archetype),
+                        )*
+                        _ => Err(EcsError::InvalidEntityType),''', '''                fn try_from(entity: EntityAny) -> Result<Self, EcsError> {
+                    match entity.archetype_id().wrapping_add(1) {
+                        #(
+                            #Archetype::ARCHETYPE_ID => Ok(SelectArchetype::#Archetype),
+                        )*
+                        _ => Err(EcsError::InvalidEntityType),''', ['C14']),
 ]
 
 
